@@ -152,8 +152,8 @@ Proof.
   destruct (_ =? IndentedCodeBlockKind).
   { unfold matchIndented. cbv zeta. destruct (_ <? _); [destruct (negb _)|]; cbn [snd]; try apply G_consumeIndent; exact H. }
   destruct (_ =? HTMLBlockKind).
-  { unfold matchHTML. destruct (htmlEnd _ _); [|exact H]. cbn [snd]. apply G_consumeLine.
-    destruct (negb _); [|exact H]. apply G_collectInline; [exact H|apply len_nonneg|].
+  { unfold matchHTML. destruct (htmlEnd _ _); [|exact H]. destruct (isRestBlank _); [exact H|]. cbn [snd]. apply G_consumeLine.
+    apply G_collectInline; [exact H|apply len_nonneg|].
     unfold bytesAfterIndent. pose proof (trim_len (rest p)). rewrite (len_rest p) in H0 by (destruct A; lia). lia. }
   exact H.
 Qed.
